@@ -53,6 +53,7 @@ class Registry:
         self.axioms = []            # (name, z3 formula, justification) -- assumptions, listed in the evidence
         self.native_specfuns = {}   # name -> dict(smt=callable, rt=callable)  (views of library objects)
         self._ast = {}; self.virtual = {}        # virtual[relpath] = Python source of spec-level composition lemmas (not repository code)
+        self.static_checks = []      # (name, callable(reg) -> (ok: bool, detail: str)): structural obligations over the real AST
         self.call_hooks = []; self.loop_hooks = []; self.stmt_hooks = []; self.methods = {}; self.consts = {}; self.binop_hooks = {}
         self.pure_methods = {"get", "keys", "values", "items", "debug", "copy", "index", "count", "has_edge", "has_node", "neighbors", "edges", "nodes", "degree", "order", "number_of_edges", "issubset"}
     def module(self, relpath):
